@@ -5,6 +5,7 @@ From I18n Require Import Model.Cli Proofs.Cli.
 From Coq Require Import NArith.
 From I18n Require Import Lib.Outcome Model.MoParser Spec.MoFormat Proofs.Packaging.
 From I18n Require Import Model.PoUnescape Model.PoParser Spec.PoSyntax Proofs.PoParser.
+From I18n Require Import Model.PoLexer Proofs.PackagingFiles.
 Import ListNotations.
 
 (* with fake_root = (real_root, fake_root): a path under real_root is printed as fake_root ++ the rest,
@@ -36,5 +37,48 @@ Theorem C17_po_spelling : forall O ws1 ws2 c1 c2 l1 l2,
 Proof. exact po_spelling_independent. Qed.
 Print Assumptions C17_po_spelling.
 
+(* the same at file level (corollary of the C10 load/render theorems): two spellings of one catalog in one charset —
+   escape form per character, continuation chunks, per-line padding, blank lines, separators — give the same loaded file *)
+Theorem C17_po_spelling_files : forall O sp1 sp2 c1 c2 pls1 pls2,
+  ascii_compatible (o_dec O) ->
+  seps_ok sp1 -> scatalog_ok (o_dec O) c1 -> nplurals_le_10 c1 -> sc_entries c1 <> [] ->
+  file_of (render_bodies sp1 c1) pls1 -> Forall (fun l => ~ In 10%N l) pls1 ->
+  seps_ok sp2 -> scatalog_ok (o_dec O) c2 -> nplurals_le_10 c2 -> sc_entries c2 <> [] ->
+  file_of (render_bodies sp2 c2) pls2 -> Forall (fun l => ~ In 10%N l) pls2 ->
+  catalog_value c1 = catalog_value c2 ->
+  parse_lines O (codecs_open_text (text_of_lines pls1)) = parse_lines O (codecs_open_text (text_of_lines pls2)).
+Proof. exact po_files_same_catalog. Qed.
+Print Assumptions C17_po_spelling_files.
+
+(* transcoding to another supported charset with the charset field adjusted: each file is decoded with its own declared
+   charset and the loaded entries are the same except the header entry (whose value names the charset) *)
+Theorem C17_po_transcoding : forall C raw1 raw2 enc1 enc2 sp1 sp2 c1 c2 pls1 pls2 h1 h2 rest,
+  detect_encoding (c_lookup C) raw1 = enc1 -> detect_encoding (c_lookup C) raw2 = enc2 ->
+  c_decode C (if c_ascii_compatible C enc1 then enc1 else s_ascii) raw1 = Some (text_of_lines pls1) ->
+  c_decode C (if c_ascii_compatible C enc2 then enc2 else s_ascii) raw2 = Some (text_of_lines pls2) ->
+  ascii_compatible (c_decode C enc1) -> ascii_compatible (c_decode C enc2) ->
+  seps_ok sp1 -> scatalog_ok (c_decode C enc1) c1 -> nplurals_le_10 c1 -> sc_entries c1 <> [] ->
+  file_of (render_bodies sp1 c1) pls1 -> Forall (fun l => ~ In 10%N l) pls1 ->
+  seps_ok sp2 -> scatalog_ok (c_decode C enc2) c2 -> nplurals_le_10 c2 -> sc_entries c2 <> [] ->
+  file_of (render_bodies sp2 c2) pls2 -> Forall (fun l => ~ In 10%N l) pls2 ->
+  fst (catalog_value c1) = fst (catalog_value c2) ->
+  snd (catalog_value c1) = h1 :: rest -> snd (catalog_value c2) = h2 :: rest ->
+  exists hdr es,
+    load_po C raw1 = Ok (mkLoaded enc1 (mkPo hdr (to_entry (tool_view h1) :: es) false), false) /\
+    load_po C raw2 = Ok (mkLoaded enc2 (mkPo hdr (to_entry (tool_view h2) :: es) false), false).
+Proof. exact po_files_transcoded. Qed.
+Print Assumptions C17_po_transcoding.
+
+(* --unpack-deb: a member unpacked from a binary package (under tmpdir/) or from a source package (under tmpdir/s/) is
+   printed as <package>/<member> *)
+Theorem C17_member_path : forall binary tmpdir filename member,
+  printed_member binary tmpdir filename member = filename ++ [47%N] ++ member.
+Proof. exact printed_member_spec. Qed.
+Print Assumptions C17_member_path.
+
 Example C17_ex : fake_path Nat.eqb [1;2;47] [9;47] [1;2;47;5;6] = [9;47;5;6].
 Proof. reflexivity. Qed.
+Example C17_ex_member :   (* "/t" "p.dsc" "po/a.po": unpacked at /t/s/po/a.po, printed as p.dsc/po/a.po *)
+  (unpacked_member false [47;116] [112;111;47;97;46;112;111] = [47;116;47;115;47;112;111;47;97;46;112;111] /\
+   printed_member false [47;116] [112;46;100;115;99] [112;111;47;97;46;112;111] = [112;46;100;115;99;47;112;111;47;97;46;112;111])%N.
+Proof. split; reflexivity. Qed.
